@@ -269,7 +269,13 @@ fn run_unit(eng: &dyn Engine, unit: &UnitSpec, progress: Option<&File>, skip: &[
             // keep the first few per signature
             let same = res.violations.iter().filter(|(x, _)| x.signature == v.signature).count();
             if same < 3 && res.violations.len() < max_viol {
-                res.violations.push((v, explicit_override.unwrap_or_else(|| eng.explicit(&case))));
+                let mut c = explicit_override.unwrap_or_else(|| eng.explicit(&case));
+                if c.scenario != "shard-prefix" {
+                    // where on the worker's path the case ran: lets the driver replay the path when
+                    // the violation needs what the process did before
+                    c.extra.insert("_path".into(), serde_json::json!({"shard": iso.shard, "from_unit": iso.first_unit, "unit": unit.id, "sub": sub}));
+                }
+                res.violations.push((v, c));
             }
         }
     }
